@@ -9,6 +9,11 @@
 //	sign      walletTransactionExecutor.signTransaction: start block handed to signBatch and the
 //	          block at which the signing context is cancelled
 //	heartbeat heartbeatAction.execute(): signing start, signing context block, claim context block
+//	enforce   is the deadline ENFORCED: withCancelOnBlock itself, signTransaction, the heartbeat's
+//	          signing / claim contexts and the four transaction actions' execute() run end to end
+//	          on fake chains, all with a scripted block clock and a scripted (possibly failing)
+//	          waitForBlockFn; observable = closed / still-open after every scripted event
+//	          (enforce.go, actions.go)
 //
 // The "block at which a context is cancelled" is observed through the injected waitForBlockFn
 // (withCancelOnBlock calls it with that block); nothing depends on wall-clock time.
@@ -20,7 +25,7 @@ import (
 	"fmt"
 	"math/big"
 	"os"
-	"sync"
+	"time"
 
 	"github.com/btcsuite/btcd/btcec/v2"
 	"github.com/keep-network/keep-core/pkg/chain"
@@ -36,6 +41,8 @@ type input struct {
 	Expiry uint64 `json:"expiry"`
 	Prior  uint   `json:"prior"`  // heartbeat: consecutive failures already counted
 	Active int    `json:"active"` // heartbeat: members active during signing
+
+	Enforce *enforceIn `json:"enforce,omitempty"` // fn = enforce: see enforce.go
 }
 
 var actionTypes = map[string]tbtc.WalletActionType{
@@ -48,28 +55,11 @@ var actionCoq = map[string]string{
 }
 var txActions = []string{"deposit-sweep", "redemption", "moving-funds", "moved-funds-sweep"}
 
-// recorder is the injected waitForBlockFn: it reports the block it is asked to wait for and
-// returns (cancelling the derived context) only when the run is over.
-type recorder struct {
-	blocks  chan uint64
-	release chan struct{}
-	once    sync.Once
-}
-
-func newRecorder() *recorder {
-	return &recorder{blocks: make(chan uint64, 16), release: make(chan struct{})}
-}
-func (r *recorder) wait(ctx context.Context, b uint64) error {
-	r.blocks <- b
-	select {
-	case <-r.release:
-	case <-ctx.Done():
-	}
-	return nil
-}
-func (r *recorder) done() { r.once.Do(func() { close(r.release) }) }
-
 var errStop = errors.New("verif: stop after reporting")
+
+// generous bound on waiting for a positive signal of the fakes; beyond it a case is skipped as
+// inconclusive, never judged
+const waitBound = 30 * time.Second
 
 type hbChain struct {
 	tbtc.Chain
@@ -96,6 +86,14 @@ func optZ(p *uint64) string {
 
 func run(in input, em *lib.Emitter, id string) {
 	sig := map[string]interface{}{"fn": in.Fn, "action": in.Action}
+	if in.Fn == "enforce" {
+		if in.Enforce == nil {
+			fmt.Fprintln(os.Stderr, "enforce case without a script")
+			os.Exit(2)
+		}
+		runEnforce(*in.Enforce, em, id)
+		return
+	}
 	switch in.Fn {
 	case "static":
 		var t tbtc.VerifC46ActionTimings
@@ -133,9 +131,10 @@ func run(in input, em *lib.Emitter, id string) {
 		em.Case(lib.Case{ID: id, Coq: fmt.Sprintf("(CStart %s %s)", lib.ZU(in.Start), lib.ZU(end)),
 			Key: fmt.Sprintf("start|%d", in.Start), Nontrivial: in.Start%900 == 0 && in.Start > 0, Sig: sig, In: in, Out: end})
 	case "sign":
-		rec := newRecorder()
+		w := newWorld(in.Start) // every waiter call stays pending until the case is over
 		var ss, se uint64
-		var err error
+		var err, werr error
+		armed := false
 		panicked := ""
 		func() {
 			defer func() {
@@ -143,25 +142,32 @@ func run(in input, em *lib.Emitter, id string) {
 					panicked = fmt.Sprint(r)
 				}
 			}()
-			err = tbtc.VerifC46SignTransaction(rec.wait, in.Start, in.Expiry,
+			err = tbtc.VerifC46SignTransaction(w.wait, in.Start, in.Expiry,
 				func(ctx context.Context, startBlock uint64) error {
 					ss = startBlock
-					se = <-rec.blocks // the block the signing context is cancelled at
+					var c *wcall
+					if c, werr = w.awaitCall(0, waitBound); c != nil {
+						se, armed = c.target, true // the block the signing context is cancelled at
+					}
 					return errStop
 				})
 		}()
-		rec.done()
-		if panicked != "" || err == nil {
+		w.finish()
+		if werr != nil {
+			em.Tally("sign-inconclusive-skipped")
+			return
+		}
+		if panicked != "" || err == nil || !armed {
 			ss, se = 0, ^uint64(0) // impossible observation
 		}
 		em.Tally("sign")
 		em.Case(lib.Case{ID: id, Coq: fmt.Sprintf("(CSign %s %s %s %s)", lib.ZU(in.Start), lib.ZU(in.Expiry), lib.ZU(ss), lib.ZU(se)),
 			Key: fmt.Sprintf("sign|%d|%d", in.Start, in.Expiry), Nontrivial: in.Start < in.Expiry, Sig: sig, In: in,
-			Out: map[string]interface{}{"signStart": ss, "signCtxBlock": se, "panic": panicked, "err": fmt.Sprint(err)}})
+			Out: map[string]interface{}{"signStart": ss, "signCtxBlock": se, "armed": armed, "panic": panicked, "err": fmt.Sprint(err)}})
 	default: // heartbeat
-		rec := newRecorder()
+		w := newWorld(in.Start)
 		var ss, se, ce *uint64
-		var err error
+		var err, werr error
 		panicked := ""
 		func() {
 			defer func() {
@@ -169,21 +175,35 @@ func run(in input, em *lib.Emitter, id string) {
 					panicked = fmt.Sprint(r)
 				}
 			}()
-			err = tbtc.VerifC46RunHeartbeat(hbChain{}, walletKey.ToECDSA(), in.Start, in.Expiry, rec.wait, in.Prior, in.Active,
+			err = tbtc.VerifC46RunHeartbeat(hbChain{}, walletKey.ToECDSA(), in.Start, in.Expiry, w.wait, in.Prior, in.Active,
 				func(ctx context.Context, startBlock uint64) error {
 					s := startBlock
 					ss = &s
-					b := <-rec.blocks
-					se = &b
+					c, e := w.awaitCall(0, waitBound)
+					if c != nil {
+						b := c.target
+						se = &b
+					}
+					werr = e
 					return nil
 				},
 				func(ctx context.Context) error {
-					b := <-rec.blocks
-					ce = &b
+					c, e := w.awaitCall(1, waitBound)
+					if c != nil {
+						b := c.target
+						ce = &b
+					}
+					if werr == nil {
+						werr = e
+					}
 					return nil
 				})
 		}()
-		rec.done()
+		w.finish()
+		if werr != nil {
+			em.Tally("heartbeat-inconclusive-skipped")
+			return
+		}
 		res := "HbOk"
 		if panicked != "" {
 			res = "HbPanic"
@@ -294,7 +314,84 @@ func main() {
 		active := []int{0, 51, 69, 70, 71, 100, 60}[r.Intn(7)]
 		run(input{Fn: "heartbeat", Action: "heartbeat", Start: s, Expiry: e, Prior: prior, Active: active}, em, fmt.Sprintf("hb-%d", i))
 	}
+	// --- enforcement: corpus (the fault of seeded change C46a: the block counter fails while the
+	// deadline is armed) for every armer, then random scripts
+	enf := func(id string, a armerIn, clock uint64, m wmode, steps ...dstep) {
+		runEnforce(enforceIn{Armer: a, Clock: clock, Mode: m, Steps: steps}, em, id)
+	}
+	errNow, okMode, hang := wmode{Kind: "err"}, wmode{Kind: "ok"}, wmode{Kind: "hang"}
+	enf("corpus-enforce-prim-err-now", armerIn{Kind: "prim", Target: 1000}, 900, errNow, dstep{Adv: 950}, dstep{Adv: 1000})
+	enf("corpus-enforce-prim-err-later", armerIn{Kind: "prim", Target: 1000}, 900, wmode{Kind: "err", K: 40},
+		dstep{Adv: 939}, dstep{Adv: 940}, dstep{Adv: 1001})
+	enf("corpus-enforce-prim-ok", armerIn{Kind: "prim", Target: 1000}, 900, okMode, dstep{Adv: 999}, dstep{Adv: 1000}, dstep{Adv: 1001})
+	enf("corpus-enforce-prim-hang-parent", armerIn{Kind: "prim", Target: 1000, HasParent: true}, 900, hang,
+		dstep{Adv: 1000}, dstep{Adv: 1100}, dstep{Cancel: true}, dstep{Adv: 1200})
+	enf("corpus-enforce-prim-past-target", armerIn{Kind: "prim", Target: 800}, 900, okMode, dstep{Adv: 901})
+	enf("corpus-enforce-signtx-err-now", armerIn{Kind: "signtx", Start: start, Expiry: start + 900}, start, errNow,
+		dstep{Adv: start + 1}, dstep{Adv: start + 900})
+	enf("corpus-enforce-hbsign-err-now", armerIn{Kind: "hbsign", Start: 1000, Expiry: 1000 + hbValidity}, 1000, errNow,
+		dstep{Adv: 1001}, dstep{Adv: 1300}, dstep{Adv: 1650})
+	enf("corpus-enforce-hbsign-ok", armerIn{Kind: "hbsign", Start: 1000, Expiry: 1000 + hbValidity}, 1000, okMode,
+		dstep{Adv: 1299}, dstep{Adv: 1300})
+	enf("corpus-enforce-hbclaim-err-later", armerIn{Kind: "hbclaim", Start: 1000, Expiry: 1000 + hbValidity}, 1250,
+		wmode{Kind: "err", K: 20}, dstep{Adv: 1269}, dstep{Adv: 1270}, dstep{Adv: 1600})
+	for _, a := range txActions {
+		e := start + validity[a]
+		enf("corpus-enforce-exec-err-now-"+a, armerIn{Kind: "exec", Action: a, Start: start, Expiry: e}, start+2, errNow,
+			dstep{Adv: start + 100}, dstep{Adv: e - 300}, dstep{Adv: e + 10})
+		enf("corpus-enforce-exec-ok-"+a, armerIn{Kind: "exec", Action: a, Start: start, Expiry: e}, start+2, okMode,
+			dstep{Adv: e - 301}, dstep{Adv: e - 300})
+	}
+	for i := 0; i < o.Count(260, 2600); i++ {
+		r := rng.Fork(fmt.Sprintf("enf%d", i))
+		var a armerIn
+		var clock, target uint64
+		s := randStart(r)
+		if s > 1<<63 {
+			s = uint64(r.Intn(1 << 30)) // enforcement scripts walk the clock forward: no wrapping starts
+		}
+		switch k := i % 9; k {
+		case 0, 1:
+			clock = s
+			target = clock + uint64(r.Intn(600))
+			if r.Chance(1, 8) && clock > 100 {
+				target = clock - uint64(r.Intn(100)) // deadline already passed when armed
+			}
+			a = armerIn{Kind: "prim", Target: target, HasParent: r.Chance(2, 3)}
+		case 2:
+			clock = s + uint64(r.Intn(5))
+			target = s + 600 + uint64(r.Intn(600))
+			a = armerIn{Kind: "signtx", Start: s, Expiry: target}
+		case 3:
+			clock = s + uint64(r.Intn(5))
+			e := s + hbValidity
+			if r.Chance(1, 6) {
+				e = s + 300 + uint64(r.Intn(600))
+			}
+			target = e - 300
+			a = armerIn{Kind: "hbsign", Start: s, Expiry: e}
+		case 4:
+			clock = s + uint64(r.Intn(280))
+			e := s + hbValidity
+			target = e - 25
+			a = armerIn{Kind: "hbclaim", Start: s, Expiry: e}
+		default:
+			act := txActions[k-5]
+			clock = s + uint64(r.Intn(5))
+			e := s + validity[act]
+			if r.Chance(1, 6) {
+				e = s + 300 + uint64(r.Intn(1200))
+			}
+			target = e - 300
+			a = armerIn{Kind: "exec", Action: act, Start: s, Expiry: e}
+		}
+		m := genMode(r, clock, target)
+		runEnforce(enforceIn{Armer: a, Clock: clock, Mode: m, Steps: genSteps(r, clock, target, m, a.HasParent)}, em,
+			fmt.Sprintf("enf-%d", i))
+	}
 	em.Close("a case is one action built by its production constructor (static), one window end (start), one "+
 		"signTransaction call (sign) or one heartbeat execution (heartbeat); static cases are non-trivial when the expiry "+
-		"is start + ValidityBlocks as node.go sets it, heartbeat cases when the inactivity claim is issued", nil)
+		"is start + ValidityBlocks as node.go sets it, heartbeat cases when the inactivity claim is issued; an enforce case is one "+
+		"deadline armed by the real code with a scripted block waiter and clock, non-trivial when the waiter fails or the "+
+		"context is closed by a scripted event", nil)
 }
